@@ -203,7 +203,7 @@ func Mutants(base *Schema) []Mutant {
 
 	// ---- R3 duplicates / R4 malformed / R5 reserved names for every named thing
 	badNames := []struct{ name, rule, routes string }{
-		{"__zq", "R5", "both"}, {"1zq", "R4", "both"}, {"z q", "R4", "addtypes"}, {"z-q", "R4", "addtypes"}, {"zé", "R4", "addtypes"}, {"z名", "R4", "addtypes"}, {"名", "R4", "addtypes"}, {"z\U0001F600", "R4", "addtypes"}, {"", "R4", "addtypes"},
+		{"__zq", "R5", "both"}, {"__Type", "R5", "both"}, {"__Schema", "R5", "both"}, {"__TypeKind", "R5", "both"}, {"1zq", "R4", "both"}, {"z q", "R4", "addtypes"}, {"z-q", "R4", "addtypes"}, {"zé", "R4", "addtypes"}, {"z名", "R4", "addtypes"}, {"名", "R4", "addtypes"}, {"z\U0001F600", "R4", "addtypes"}, {"", "R4", "addtypes"},
 	}
 	rt := func(r string) string {
 		if hasBlocks {
